@@ -80,6 +80,27 @@ def gen_strings(ctx):
                 lines.append('prose between blocks')
         base = rng.choice([0, 4])
         out.append('\n'.join(' ' * base + l if l else l for l in lines))
+    return out + fixed_strings()
+
+
+def fixed_strings():
+    """shapes that must not depend on what the random fuzz happens to draw (each was once the only thing between a seeded change and
+    a quiet check): broken docstrings whose prompt lines are led by white space other than blank/tab (pasted from a web page), and
+    the backwards-compatible mixed-prompt layout in which a statement is cut in front of a want"""
+    out = []
+    for ws in ('\xa0', '\u3000', '\x1f', ' \xa0', '\xa0\xa0\xa0\xa0'):
+        for intro in ('', 'intro\n\n', 'Usage:\n\n'):
+            for pad in ('', '    '):
+                for body in (['>>> x = ('], ['>>> def f() return 1'], ['>>> print(1)', '1', '>>> y = ['], [">>> s = '''abc"], ['>>> print(1)', '1'],
+                             ['>>> if True:', '>>> pass']):
+                    out.append(intro + '\n'.join(pad + (ws + l if l.startswith('>>>') else l) for l in body) + '\n')
+    for pad in ('', '    '):
+        for pre in ([], ['>>> a = 1'], ['>>> print(7)', '7']):
+            for stmt, want in ((['>>> x = (1,', '>>>      2,', '...      3)'], ['(1, 2, 3)']), (['>>> x = [1,', '>>>      2,', '...      3]', '>>> x'], ['[1, 2, 3]']),
+                               ([">>> s = '''a", '>>> b', "... c'''"], ['text that follows']), (['>>> f(1,', '>>>   2', '...   )'], ['3']),
+                               (['>>> x = (1,', '...      2,', '>>>      3)'], ['(1, 2, 3)'])):
+                out.append('\n'.join(pad + l for l in pre + stmt + want) + '\n')
+                out.append('Summary.\n\n' + '\n'.join(pad + l for l in pre + stmt + want) + '\n\nTrailing prose.\n')
     return out
 
 
